@@ -99,6 +99,9 @@ PROPS = {
         'sim': [('MC_sim.cfg', 100, 1500, 60), ('MC_sim_self.cfg', 30, 500, 60)],
         'title': 'Virtual view',
         'fault_extra': [('probe', 30, 500, 6, 0, QUERY_FAULT_CALLS, 'query'), ('swap', 60, 800, 6, 0, QUERY_FAULT_CALLS, 'query')],
+        # a query that races a failing build_file on the same path: the racing answer is not judged, the view after the
+        # threads are joined is (D43); single preemptions + up to 600 (query, builder, query) triples per history
+        'thread_extra': [('threadsqdep', 8, 100, 2, 0, 0, 0, 0, 0)],
         'units': [('swap', 800, 10000), ('forcrash', 600, 8000), ('probe', 700, 12000), ('general', 500, 8000), ('nested', 1000, 15000), ('bfcontract', 300, 5000),
                   ('selfnest', 500, 6000), ('foreign', 1500, 15000), ('subcacheq', 500, 8000), ('regress', 0, 0)],
         'owned': {'AnswerMatches'},
